@@ -1,9 +1,10 @@
-\* disturbance schedules (simulation): 3 exchange ids, 2 handlers, 7 packets
+\* disturbance schedules (simulation): 2 sessions x 3 exchange ids, 2 handlers, 8 packets
 SPECIFICATION Spec
 CONSTANTS
+  Sess = {1, 2}
   ExIds = {1, 2, 3}
   Handlers = {1, 2}
-  MaxPkts = 7
-  Policies = {"reply", "drop", "hold"}
+  MaxPkts = 8
+  Policies = {"reply", "drop", "hold", "relDrop"}
 INVARIANTS RightExchangeOnly OpensOnlyIfAllowed EmitAtEnd
 CHECK_DEADLOCK FALSE
